@@ -94,6 +94,14 @@ func endConn(c *rawClient, cause string) {
 		wr([]byte{0xe0, 0x00})
 	case "close":
 		c.conn.Close()
+	case "halfclose":
+		// the peer shuts down its sending direction only and neither reads nor closes: the broker
+		// reads end-of-stream on a socket it can still write to (and block on)
+		if c.half != nil {
+			c.half.shut()
+		} else {
+			c.conn.Close()
+		}
 	case "protoerr":
 		wr([]byte{0xf0, 0x00}) // reserved packet type 15
 	case "oversize":
@@ -166,6 +174,8 @@ func lifeRun(cond, cause, order string) string {
 	needThird := cond == "outfull" || cond == "infull" || cond == "cross"
 	var subj, third *rawClient
 	connectSubj := func() bool {
+		halfCloseable = cause == "halfclose"
+		defer func() { halfCloseable = false }()
 		subj, ok = rawConnect(svr, 2, simpleConnect("subject", ka, &wWill{topic: []byte("will/subject"), payload: []byte("gone")}))
 		return ok
 	}
@@ -302,7 +312,7 @@ func lifeRun(cond, cause, order string) string {
 	case "srvclose":
 		closeServer()
 		srvCloseStarted = true
-	case "close", "keepalive":
+	case "close", "keepalive", "halfclose":
 		endConn(subj, cause)
 	default:
 		if floodDone != nil {
@@ -441,14 +451,14 @@ func genLife(seed int64, n int, tier string, w *bufio.Writer) {
 	r := rand.New(rand.NewSource(seed))
 	fmt.Fprintln(w, "life reset")
 	conds := []string{"idle", "outfull", "infull"}
-	causes := []string{"disconnect", "close", "protoerr", "oversize", "keepalive"}
+	causes := []string{"disconnect", "close", "protoerr", "oversize", "keepalive", "halfclose"}
 	k := 0
 	for _, cd := range conds {
 		for _, cs := range causes {
 			if k >= n {
 				return
 			}
-			if tier != "thorough" && cs == "keepalive" && cd != "idle" {
+			if tier != "thorough" && (cs == "keepalive" || cs == "halfclose") && cd != "idle" {
 				continue
 			}
 			if tier != "thorough" && cd == "infull" && cs != "close" && cs != "disconnect" {
@@ -499,8 +509,8 @@ func emitScns(w *bufio.Writer, r *rand.Rand, n int, fixed []lifeScn, pool []life
 // in which the two involved connections end.
 func genLifePairs(seed int64, n int, tier string, w *bufio.Writer) {
 	all := []lifeScn{
-		{"selfout", "keepalive", "s"}, {"cross", "close", "s"}, {"cross", "close", "t"}, {"selffull", "close", "s"}, {"selfout", "close", "s"},
-		{"infull", "close", "t"},
+		{"selfout", "keepalive", "s"}, {"selfout", "halfclose", "s"}, {"cross", "close", "s"}, {"cross", "close", "t"}, {"selffull", "close", "s"}, {"selfout", "close", "s"},
+		{"infull", "close", "t"}, {"outfull", "halfclose", "s"},
 		{"selffull", "keepalive", "s"}, {"outfull", "close", "t"}, {"infull", "disconnect", "t"}, {"cross", "keepalive", "s"},
 		{"cross", "keepalive", "t"}, {"outfull", "disconnect", "t"}, {"outfull", "keepalive", "t"}, {"infull", "protoerr", "t"},
 		{"infull", "oversize", "t"}, {"infull", "keepalive", "t"}, {"outfull", "protoerr", "t"}, {"outfull", "oversize", "t"},
